@@ -345,8 +345,11 @@ func randCoding(rng *rand.Rand, n int, full bool) string {
 		}
 	}
 	alpha := "ACGTacgt"
-	if rng.Intn(6) == 0 {
+	switch rng.Intn(6) {
+	case 0:
 		alpha = "ACGTacgtNnRY-"
+	case 1: // RNA spelling mixed in: a triplet with U is not a codon of the table
+		alpha = "ACGTacgtUuACGT"
 	}
 	for b.Len() < n {
 		b.WriteByte(alpha[rng.Intn(len(alpha))])
